@@ -292,7 +292,8 @@ def prop_cli(sh, case):
                                 args += ['-f', fmt]
                             if m:
                                 args.append('-m')
-                            outpath = os.path.join(tmp, 'out.txt')
+                            # an explicit -f wins over whatever the output file is called
+                            outpath = os.path.join(tmp, {'text': 'out.csv', 'csv': 'out.txt'}.get(fmt, 'out.dat'))
                             if o:
                                 args += ['-o', outpath]
                             if q:
